@@ -50,6 +50,7 @@ pub fn expand(input: &DeriveInput, trait_name: &'static str) -> Result<TokenStre
             <#reference_with_lifetime #field_type as #trait_path>
         };
         let into_iterator = quote! {
+            #[allow(deprecated)] // omit warnings on deprecated fields/variants
             #[automatically_derived]
             impl #impl_generics #trait_path for #reference_with_lifetime #input_type #ty_generics
                  #where_clause
